@@ -569,10 +569,10 @@ pub fn def() -> PropertyDef {
             "progressive tkhd width/height are judged by C19 through its shifted decoder (listed finding), here only the sample entry",
         ],
         subs: vec![
-            Box::new(PSub { name: "durations_and_offsets", quick: 3000, thorough: 100_000, strat: timeline_strategy, eval: eval_timeline }),
-            Box::new(PSub { name: "fields_around_2^16", quick: 1500, thorough: 40_000, strat: fields_strategy, eval: eval_fields }),
-            Box::new(PSub { name: "fragmented_boundaries", quick: 2000, thorough: 60_000, strat: fragnum_strategy, eval: eval_fragnum }),
-            Box::new(PSub { name: "huge_timestamps", quick: 1000, thorough: 20_000, strat: huge_strategy, eval: eval_huge }),
+            Box::new(PSub { name: "durations_and_offsets", quick: 20000, thorough: 600000, strat: timeline_strategy, eval: eval_timeline }),
+            Box::new(PSub { name: "fields_around_2^16", quick: 6000, thorough: 150000, strat: fields_strategy, eval: eval_fields }),
+            Box::new(PSub { name: "fragmented_boundaries", quick: 12000, thorough: 300000, strat: fragnum_strategy, eval: eval_fragnum }),
+            Box::new(PSub { name: "huge_timestamps", quick: 4000, thorough: 80000, strat: huge_strategy, eval: eval_huge }),
         ],
     }
 }
